@@ -38,6 +38,20 @@ def slot(q, u, bs, ty):
     format!("{{}} {{}} {{}} {{}}", sh(&s0), sh(&g0), sh(&r.value), sh(&r.get::<N>()))"""
 
 
+def must_values(ty):
+    """Values every run includes: where an add-one-half-then-floor style rounding goes wrong."""
+    f = FC.FMT[ty]
+    sp = FC.special_values(ty)
+    mw = f["prec"] - 1
+    bias = (1 << (f["ew"] - 1)) - 1
+    sign = 1 << (f["bits"] - 1)
+    half = (bias - 1) << mw
+    big = (bias + mw) << mw          # 2^(prec-1)
+    vals = [half, half - 1, half + 1, sign | half, sign | (half - 1), big + 1, big + 3, sign | (big + 1), big - 1,
+            ((bias) << mw) | (1 << (mw - 1)), ((bias + 1) << mw) | (1 << (mw - 2)), sign | ((bias + 1) << mw) | (1 << (mw - 2)), sp["1-ulp"], sp["-0"]]
+    return vals
+
+
 def unit_values(rng, ty, n):
     """Values in the unit: integers, half-integers, k +- ulp, negatives, beyond 2^prec, specials."""
     prec = FC.FMT[ty]["prec"]
@@ -79,6 +93,7 @@ def run(ctx):
                 vals = unit_values(rng, ty, 4 if quick else 40)
                 if quick:
                     vals = rng.sample(vals, 40)
+                vals = must_values(ty) + vals
                 for vb in vals:
                     for r in RNDS:
                         cid = f"r{len(cases)}"
@@ -103,6 +118,7 @@ def run(ctx):
         mlines.append(f"{cid} {ty} std (round {r} {U} {T.zlist(q['dim'])} {T.sexp(u['coef'])} {T.sexp(u['const'])} {int(s0, 16)})")
     model = coqbuild.run_model(mlines)
     ctx.log(f"implementation answered {len(impl)}, model answered {len(model)}")
+    ctx.vm_crosscheck(mlines, model)
     disagreements, spec_fail = [], []
     hist, distinct = {}, set()
     checked = 0
